@@ -100,6 +100,16 @@ func gz(b []byte) []byte {
 	_ = zw.Close()
 	return buf.Bytes()
 }
+
+// gzFast: a gzip stream as another tool writes it (other level, a header name): re-encoding it gives other bytes
+func gzFast(b []byte) []byte {
+	var buf bytes.Buffer
+	zw, _ := gzip.NewWriterLevel(&buf, gzip.BestSpeed)
+	zw.Name = "layer.tar"
+	_, _ = zw.Write(b)
+	_ = zw.Close()
+	return buf.Bytes()
+}
 func gunzip(b []byte) []byte {
 	if len(b) > 2 && b[0] == 0x1f && b[1] == 0x8b {
 		zr, err := gzip.NewReader(bytes.NewReader(b))
@@ -203,6 +213,9 @@ func mkImage(c Case, r *lib.Rand, uniq string, arch string) imageT {
 		blob := uc
 		if !c.Plain {
 			blob = gz(uc)
+			if c.Seed%3 == 0 {
+				blob = gzFast(uc)
+			}
 			if c.Zstd {
 				blob = zst(uc)
 			}
@@ -535,6 +548,11 @@ func buildOpts(c Case, tgt ref.Ref) ([]mod.Opts, bool) {
 			out = append(out, mod.WithLayerStripFile("no/such/file"))
 		case "noop-time":
 			out = append(out, mod.WithLayerTimestamp(mod.OptTime{Set: t0, After: time.Date(2090, 1, 1, 0, 0, 0, 0, time.UTC)}))
+		case "noop-time-same": // the times the single layer's files already have, given in another zone
+			out = append(out, mod.WithLayerTimestamp(mod.OptTime{Set: time.Date(2021, 3, 4, 6, 6, 7, 0, time.FixedZone("plus1", 3600))}))
+			if c.Layers != 1 {
+				noop = false
+			}
 		case "noop-rmcreated":
 			out = append(out, mod.WithLayerRmCreatedBy(*regexp.MustCompile("^no such step$")))
 		}
@@ -1002,7 +1020,7 @@ func classify(msg string) string {
 
 var optKinds = []string{"annotation", "label", "env", "cfgtime", "layertime", "rmindex", "strip", "addtar", "recompress", "reproducible", "algo512", "tooci", "todocker", "data", "data", "urlrm",
 	"tozstd", "togzip", "cmd", "entrypoint", "expose", "volume", "label2annot", "promote", "rmcreated", "filetime", "tsmax", "cfgplatform", "buildarg"}
-var noopKinds = []string{"noop-label", "noop-strip", "noop-time", "urlrm"}
+var noopKinds = []string{"noop-label", "noop-strip", "noop-time", "urlrm", "noop-time-same"}
 
 func genCase(r *lib.Rand) Case {
 	c := Case{Kind: "mod", Seed: r.U64(), Docker: r.Chance(35), Index: r.Chance(30), Layers: 1 + r.Intn(4), Plain: r.Chance(25), Zstd: r.Chance(25), Empties: r.Chance(50), NoHist: r.Chance(10),
@@ -1064,6 +1082,9 @@ func Run(o lib.Opts) {
 		{Kind: "mod", Seed: 65, Index: true, Attest: true, Layers: 2, Empties: true, Target: "repo", Opts: []Opt{{K: "rmcreated", N: 1}}},
 		{Kind: "mod", Seed: 66, Index: true, Attest: true, Layers: 2, Target: "same", Opts: []Opt{{K: "toreferrers"}, {K: "label", N: 1}}},
 		{Kind: "mod", Seed: 67, Layers: 3, Empties: true, Rebase: true, Target: "repo", Opts: []Opt{{K: "rebase"}}},
+		// a time option naming the instant the files already have (in another zone) changes nothing; the layer was not written by this encoder
+		{Kind: "mod", Seed: 87, Layers: 1, Target: "same", Opts: []Opt{{K: "noop-time-same"}}},
+		{Kind: "mod", Seed: 90, Layers: 1, Index: true, Target: "repo", Opts: []Opt{{K: "noop-time-same"}, {K: "noop-label"}}},
 		// rebase alone, compared with the rebase model: old bases with and without leading empty history lines
 		{Kind: "mod", Seed: 81, Layers: 1, Empties: true, Rebase: true, Target: "same", Opts: []Opt{{K: "rebase"}}},
 		{Kind: "mod", Seed: 82, Layers: 2, Empties: false, Rebase: true, Target: "repo", Opts: []Opt{{K: "rebase"}}},
